@@ -44,6 +44,12 @@ func c16Origin(c *Ctx) {
 	id := fmt.Sprintf([]string{"%06d_6..N01R", "%06d_GS.N01R", "%06d_SI.N03R", "%06d_7X.S", "%06d_A..S55R"}[form], n)
 	td := &gtfsrt.TripDescriptor{TripId: &id, RouteId: sp([]string{"6", "GS", "SI", "7X", "A"}[form])}
 	proto.SetExtension(td, gtfsrt.E_NyctTripDescriptor, &gtfsrt.NyctTripDescriptor{Direction: gtfsrt.NyctTripDescriptor_NORTH.Enum()})
+	switch n % 7 {
+	case 3: // the descriptor carries a start time of its own (newer feeds do): the origin time of the id still decides
+		td.StartTime = sp("00:00:07")
+	case 5:
+		td.StartTime = sp("")
+	}
 	m := newFeed(cp(&tsAlphabet[0]))
 	m.Entity = []*gtfsrt.FeedEntity{{Id: sp("e"), TripUpdate: &gtfsrt.TripUpdate{Trip: td}}}
 	b := marshalFeed(m)
@@ -137,6 +143,11 @@ func genC16(c *Ctx) *c16Case {
 		return k
 	}
 	k.tracks = c.Free("tracks", 9)
+	if k.tracks == 3 || k.tracks == 6 {
+		// a cancelled trip (coupled to two of the track options rather than a dimension of its own): the stale
+		// rule does not look at the schedule relationship
+		td.ScheduleRelationship = gtfsrt.TripDescriptor_CANCELED.Enum()
+	}
 	k.firstTimes = c.Free("first_stop_times", 16)
 	k.nStops = c.Free("stop_time_updates", 3)
 	tu := &gtfsrt.TripUpdate{Trip: td, Vehicle: pre}
